@@ -197,6 +197,13 @@ def _codes(s):
     return [ord(c) for c in s]
 
 
+def _corpus():
+    """corpus/C14.json: past disagreements (the seeded mutants' minimal inputs), run first"""
+    f = core.VERIF / "corpus" / "C14.json"
+    d = json.loads(f.read_text(encoding="utf-8")) if f.exists() else {}
+    return {"move_texts": list(d.get("move_texts", [])), "games": list(d.get("games", []))}
+
+
 def _run(cs):
     """cs.run(), repeated once when a shard was killed from outside (status -9: memory pressure on a shared machine)"""
     failing, shard_fail, ns = cs.run()
@@ -354,7 +361,9 @@ def _grammar_strings(rng, quick):
                             out.add(st + ct + sq + d + dr + tr)
     n_long = 3000 if quick else 120000
     for _ in range(n_long):
-        st, ct, d, tr = rng.choice(stones), rng.choice(counts), rng.choice(dirs), rng.choice(trails)
+        st = rng.choice(stones) if rng.random() < 0.4 else ""
+        tr = rng.choice(trails) if rng.random() < 0.2 else ""
+        ct, d = rng.choice(counts), rng.choice(dirs + ["<", ">", "+", "-"])
         sq = rng.choice("abcdefgh") + rng.choice("12345678")
         room = 9 - len(st + ct + sq + d + tr)
         k = rng.randint(0, max(0, room))
@@ -502,6 +511,22 @@ def _render_game(rng, size, moves, fmt):
     return head + "\n\n" + tail, tags, lead, body
 
 
+def j_structure(tags, lead, body):
+    def jt(t):
+        return ["m", takio.j_move(t[1]), t[2]] if t[0] == "m" else list(t)
+    return {"tags": [list(x) for x in tags], "lead": [list(a) for a in lead], "body": [[jt(t), [list(a) for a in sp]] for t, sp in body]}
+
+
+def text_of_structure(st, fmt):
+    """render a stored structure again with the formatter of the tree under test"""
+    def tok_text(t):
+        if t[0] == "m":
+            return fmt(takio.mk_move(t[1])) + t[2]
+        return {"n": lambda: f"{t[1]}.", "r": lambda: t[1] + "-" + t[2], "d": lambda: "--"}[t[0]]()
+    head = "\n".join(f'[{k} "{v}"]' for k, v in st["tags"])
+    return head + "\n\n" + _sep_text(st["lead"]) + "".join(tok_text(t) + _sep_text(sp) for t, sp in st["body"])
+
+
 def c_sep(sep):
     return clist([f"SWs {ord(a[1])}" if a[0] == "w" else f"SCom {cstr(a[1])}" for a in sep])
 
@@ -608,7 +633,7 @@ def _game_texts(run):
         ms = _random_game(rng, size, rng.randint(0, 10 if run.quick else 60) if g % 5 else rng.randint(20, 90))
         text, tags, lead, body = _render_game(rng, size, ms, ptn.format_move)
         texts.append(("rendered", text, {"tags": tags, "moves": [takio.j_move(m) for m in ms],
-                                         "structure": c_structure(tags, lead, body)}))
+                                         "structure": c_structure(tags, lead, body), "rendered_from": j_structure(tags, lead, body)}))
         for _ in range(2 if run.quick else 1):
             t2 = _malform(rng, text)
             if rng.random() < 0.3:
@@ -822,7 +847,7 @@ def correspondence(run):
     # 3. grammar-shaped strings to length 9, near-miss mutations
     gs = _grammar_strings(rng, run.quick)
     base = [ptn.format_move(m) for _, m in rng.sample(allm, 1500)]
-    muts = _mutations(rng, base, 4000 if run.quick else 80000)
+    muts = _corpus()["move_texts"] + _mutations(rng, base, 4000 if run.quick else 80000)
     for name, strings, rule in (("grammar", gs, "grammar-shaped strings ([stone][count]file rank[dir][drops][stone]) up to length 9"),
                                 ("mutations", muts, "near-miss mutations (delete/duplicate/swap/replace/insert, incl. newline, blanks, non-ASCII digits) of valid move texts")):
         cs, nun, nacc, crashes = _explicit_cases(run, name, strings)
@@ -839,7 +864,8 @@ def correspondence(run):
                          lambda me, h: "text:" + (h["text"] if h else f"{me['kind']}-pack{me['first']}"))
 
     # 4. games
-    texts = [(k, t, observe_game(ptn, t), e) for k, t, e in _game_texts(run)]
+    texts = [("corpus", t, observe_game(ptn, t), None) for t in _corpus()["games"]]
+    texts += [(k, t, observe_game(ptn, t), e) for k, t, e in _game_texts(run)]
     cs = _game_cases(run, "games", texts, GAME_CHECK)
     failing, shard_fail, ns = _run(cs)
     run.oblige(f"correspondence:games ({ns} shards)", not shard_fail, str(shard_fail)[:1500])
@@ -861,7 +887,7 @@ def correspondence(run):
               "PTN.parse on texts rendered from random legal games (sizes 3-8) with random tags, move numbers, comments, suffixes, "
               "result markers, --, Unicode white space, and on malformed variants: tags (dict order) and moves / BadMove token / "
               "ValueError compared; non-trivial = parsed games with >= 4 moves",
-              [{"text": texts[0][1], "impl": j_gobs(texts[0][2])}], kinds, label="games")
+              [{"text": texts[-1][1], "impl": j_gobs(texts[-1][2])}], kinds, label="games")
     run.extra["game_disagreements"] = len(real)
     for meta in real[:8]:
         view = cs.model_view(cs.terms[[m["text"] for m in cs.metas].index(meta["text"])])
@@ -879,7 +905,7 @@ def correspondence(run):
     for k, t, o, e in texts:
         if k == "rendered":
             csr.add(f"({e['structure']}, {cstr(t)}, {c_gobs(o)})", {"kind": k, "text": t, "impl": j_gobs(o),
-                                                                    "expected": {"tags": e["tags"], "moves": e["moves"]}})
+                                                                    "expected": {"tags": e["tags"], "moves": e["moves"], "rendered_from": e["rendered_from"]}})
     failing_r, shard_fail_r, nsr = _run(csr)
     run.oblige(f"correspondence:rendered ({nsr} shards)", not shard_fail_r, str(shard_fail_r)[:1500])
     run.count(len(csr), len(csr), "the same rendered texts as structure (tags, separators of white space / comments, tokens): the model's "
@@ -898,7 +924,7 @@ def correspondence(run):
         if k == "rendered" and not (o[0] == "GO" and [takio.j_move(m) for m in o[2]] == e["moves"] and o[1] == list(dict(e["tags"]).items())):
             run.violation("game:" + core.hashlib.sha256(t.encode()).hexdigest()[:16],
                           {"clause": "parsing a PTN game returns its tags and exactly its moves in order whatever decoration surrounds them",
-                           "input": {"text": t, "kind": k, "expected": {"tags": e["tags"], "moves": e["moves"]}}, "impl": j_gobs(o)})
+                           "input": {"text": t, "kind": k, "expected": {"tags": e["tags"], "moves": e["moves"], "rendered_from": e["rendered_from"]}}, "impl": j_gobs(o)})
             shown += 1
     run.extra["unspecified_skipped"] = unspec_total
 
@@ -955,6 +981,13 @@ def replay(run, rp):
     from tak.ptn import ptn
     inp = rp.get("input", {})
     if "text" in inp and rp.get("key", "").startswith("game:"):
+        exp0 = inp.get("expected") or {}
+        if exp0.get("rendered_from"):
+            # a rendered game: render the stored structure again with the formatter of the tree under test
+            try:
+                inp = dict(inp, text=text_of_structure(exp0["rendered_from"], ptn.format_move))
+            except Exception as e:  # noqa
+                return {"violates": True, "note": "format_move raised while rendering the stored game", "error": repr(e)}
         o = observe_game(ptn, inp["text"])
         cs = _game_cases(run, "replay", [(inp.get("kind", "replay"), inp["text"], o, None)], GAME_CHECK)
         failing, shard_fail, _ = _run(cs)
